@@ -43,7 +43,8 @@ enum Act {
     TransferOwnership { to: usize, by: usize },
     /// auth: 0 = the caller itself, 1 = the stranger, 2 = nobody, 3 = the owner,
     /// 4 = the caller, but for a different forwarded function with the same arguments,
-    /// 5 = the caller, but for a different target contract
+    /// 5 = the caller, but for a different target contract,
+    /// 6 = the caller, but for different forwarded arguments (same target and function)
     Execute { caller: usize, auth: u8, target: Target },
     Advance(u32),
 }
@@ -87,6 +88,8 @@ impl Scenario for C17 {
         let mut v = vec![];
         if m.advances < 1 {
             v.push(Act::Advance(20));
+            // ~64 days: longer than any TTL a contract extends to, shorter than the minimum persistent TTL
+            v.push(Act::Advance(1_100_000));
         }
         for acct in 0..2 {
             for by in [3usize, 4, 5] {
@@ -108,7 +111,7 @@ impl Scenario for C17 {
             for t in &targets {
                 v.push(Act::Execute { caller, auth: 0, target: *t });
             }
-            for auth in 1..6u8 {
+            for auth in 1..7u8 {
                 v.push(Act::Execute { caller, auth, target: Target::Add });
                 if auth >= 4 { continue; }
                 if m.count < 2 {
@@ -184,7 +187,7 @@ impl Scenario for C17 {
                 };
                 let argv: soroban_sdk::Vec<Val> = soroban_sdk::Vec::from_slice(env, &args);
                 let signers: Vec<Address> = match auth {
-                    0 | 4 | 5 => vec![p[*caller].clone()],
+                    0 | 4 | 5 | 6 => vec![p[*caller].clone()],
                     1 => vec![p[5].clone()],
                     2 => vec![],
                     _ => vec![p[m.owner].clone()],
@@ -192,6 +195,8 @@ impl Scenario for C17 {
                 let call_args = [p[*caller].to_val(), ctx.probe.to_val(), Symbol::new(env, func).to_val(), argv.to_val()];
                 let other_fn = [p[*caller].to_val(), ctx.probe.to_val(), Symbol::new(env, "sub").to_val(), argv.to_val()];
                 let other_target = [p[*caller].to_val(), ctx.probe2.to_val(), Symbol::new(env, func).to_val(), argv.to_val()];
+                let other_argv: soroban_sdk::Vec<Val> = soroban_sdk::Vec::from_slice(env, &[w.v(2i128), w.v(4i128)]);
+                let other_args = [p[*caller].to_val(), ctx.probe.to_val(), Symbol::new(env, func).to_val(), other_argv.to_val()];
                 let call = w.call(
                     &ctx.ops,
                     "execute",
@@ -199,6 +204,7 @@ impl Scenario for C17 {
                     match auth {
                         4 => Auth::ForOtherCall(&signers, &ctx.ops, "execute", &other_fn),
                         5 => Auth::ForOtherCall(&signers, &ctx.ops, "execute", &other_target),
+                        6 => Auth::ForOtherCall(&signers, &ctx.ops, "execute", &other_args),
                         _ => Auth::By(&signers),
                     },
                 );
@@ -252,7 +258,7 @@ fn main() {
         let mut o = Opts::new(tier, if tier == "thorough" { 12 } else { 8 });
         o.min_depth = 4;
         o.xcheck = tier == "thorough";
-        o.rule = "all sequences over add/remove operator X, Y by {owner O, other owner N, stranger}, ownership transfers O<->N (and by non-owners, to self), execute by caller X/Y/Z authorised by {itself, a stranger, nobody, the owner, itself but for another forwarded function with the same arguments, itself but for another target contract} forwarding to a probe contract: echo of 8 values of different types, add(2,3), record(7,tag) (writes + emits, bounded to 2), a target returning an error, a panicking target, a missing function, wrong arity; explored to fixpoint; is_operator for all six accounts, owner() and the probe's delivery count compared after every new state".into();
+        o.rule = "all sequences over add/remove operator X, Y by {owner O, other owner N, stranger}, ownership transfers O<->N (and by non-owners, to self), execute by caller X/Y/Z authorised by {itself, a stranger, nobody, the owner, itself but for another forwarded function with the same arguments, itself but for another target contract, itself but for other forwarded arguments} forwarding to a probe contract: echo of 8 values of different types, add(2,3), record(7,tag) (writes + emits, bounded to 2), a target returning an error, a panicking target, a missing function, wrong arity; explored to fixpoint; is_operator for all six accounts, owner() and the probe's delivery count compared after every new state".into();
         (C17, o)
     });
 }
